@@ -71,7 +71,7 @@ def run(tier, replay=None):
     # (C) larger complexities without the deduplication rounds: trees_n / all_equations_n produced by the same calls main makes
     big = [("core_maths", 6), ("verif_long", 7), ("verif_inv", 7), ("verif_sqrtpow", 6), ("verif_mulsub", 7)] if tier == "quick" else \
         [("core_maths", 6), ("core_maths", 7), ("ext_maths", 5), ("keep_duplicates", 4), ("verif_long", 7), ("verif_inv", 7), ("verif_inv", 9), ("verif_sqrtpow", 6),
-         ("verif_mulsub", 7), ("verif_mulsub", 9)]
+         ("verif_mulsub", 7)]
     S = dict(S, verif_long=[["x", "a"], ["log10_abs"], ["-"]],       # function strings of 80 and more characters (log(Abs(.))/log(10) nested)
              verif_inv=[["x"], ["inv"], ["+"]],                        # sums of reciprocals: rational coefficients p/q with p, q > 1
              verif_sqrtpow=[["x", "a"], ["sqrt_abs"], ["*", "pow"]],   # rational multiples of a parameter in exponents
